@@ -95,12 +95,13 @@ Section Inv.
     i_K : mempty (st_A st) = false -> forall v, allc st v = true -> allows (st_K st) (ctype_of v) = true;
     i_Ct : forall t p, In p (st_C st t) -> forall v, p v = true -> ctype_of v = t;
     i_H : hasc0 st = false ->
-          (forall v, T (kind_of v) = true -> st_A st (kind_of v) = true -> VS v) /\ relcc T (st_A st)
+          (forall v, T (kind_of v) = true -> st_A st (kind_of v) = true -> VS v) /\ relcc T (st_A st);
+    i_wf : forall c, In c (st_all st) -> wfe c
   }.
 
   Lemma inv_sem_eq : forall T st st' VS, sem_eq st st' -> Inv T st VS -> Inv T st' VS.
   Proof.
-    intros T st st' VS (EA & EK & Eall & EC & _) [h1 h2 h3 h4 h5 h6 h7].
+    intros T st st' VS (EA & EK & Eall & EC & _) [h1 h2 h3 h4 h5 h6 h7 h8].
     assert (Ecore : forall v, core st' v = core st v).
     { intros v. unfold core, allc, cC. rewrite <- EA, <- Eall, <- EC. reflexivity. }
     constructor.
@@ -111,12 +112,13 @@ Section Inv.
     - rewrite <- EA, <- EK. unfold allc in *. rewrite <- Eall. exact h5.
     - rewrite <- EC. exact h6.
     - unfold hasc0. rewrite <- EA, <- Eall, <- EC. exact h7.
+    - rewrite <- Eall. exact h8.
   Qed.
 
   Lemma inv_ext : forall T st (VS VS' : json -> Prop),
     (forall v, T (kind_of v) = true -> (VS v <-> VS' v)) -> Inv T st VS -> Inv T st VS'.
   Proof.
-    intros T st VS VS' E [h1 h2 h3 h4 h5 h6 h7]. constructor; auto.
+    intros T st VS VS' E [h1 h2 h3 h4 h5 h6 h7 h8]. constructor; auto.
     - intros v Hv H. apply h3; auto. apply E; auto.
     - intros v Hv. rewrite h4 by auto. apply E; auto.
     - intros H. destruct (h7 H) as [a b]. split; auto. intros v Hv HA. apply E; auto.
@@ -129,6 +131,7 @@ Section Inv.
     - intros _ v _. apply allows_iff. exists (kind_of v). split; auto.
     - intros t p [].
     - intros _. split; auto. intros k k' _ H1 H2. simpl. congruence.
+    - intros c [].
   Qed.
 
   (* ---------- a constraint on one core type ---------- *)
@@ -155,8 +158,8 @@ Section Inv.
     (forall v, ctype_of v <> t -> Q v) ->
     Inv T (add_C st t p) (fun v => VS v /\ Q v).
   Proof.
-    intros T st VS t p Q [h1 h2 h3 h4 h5 h6 h7] Hp HQ Hother.
-    constructor; try exact h1; try exact h2.
+    intros T st VS t p Q [h1 h2 h3 h4 h5 h6 h7 h8] Hp HQ Hother.
+    constructor; try exact h1; try exact h2; try exact h8.
     - intros v Hv [H _]. simpl. auto.
     - intros v Hv. unfold core. rewrite cC_add_C. change (allc (add_C st t p) v) with (allc st v).
       change (st_A (add_C st t p)) with (st_A st).
@@ -204,7 +207,7 @@ Section Inv.
        relcc T A' /\ forall v, T (kind_of v) = true -> A' (kind_of v) = true -> VS v /\ Q v) ->
     Inv T (upd st A' K' e) (fun v => VS v /\ Q v).
   Proof.
-    intros T st VS A' K' e Q [h1 h2 h3 h4 h5 h6 h7] We HA HAK c1g c1h c2 c3 cH.
+    intros T st VS A' K' e Q [h1 h2 h3 h4 h5 h6 h7 h8] We HA HAK c1g c1h c2 c3 cH.
     destruct (upd_fields st A' K' e) as (EA & EK & EC & Eall & _).
     constructor.
     - rewrite EA, EK. exact HAK.
@@ -231,6 +234,8 @@ Section Inv.
         - destruct (st_all st); discriminate. }
       destruct Htop as [Htop Hh0]. destruct (cH Htop Hh0) as [Hcc Hback].
       rewrite EA. split; auto.
+    - rewrite Eall. intros c Hin. destruct (is_top e); auto.
+      apply in_app_or in Hin. destruct Hin as [Hin | [<- | []]]; auto.
   Qed.
 
 End Inv.
